@@ -138,7 +138,7 @@ Section Math.
   (* expand_display_math: 62-107 *)
   Fixpoint display_sections (fuel : nat) (st : pstate) (buf : list tok)
              (start : Z) (ename : str) (first_section next_repl : bool)
-             (out : list tok) : result (pstate * list tok * list tok * Z) :=
+             (out : list tok) : result (pstate * list tok * list tok * Z * bool) :=
     match fuel with
     | O => OutOfFuel
     | S k =>
@@ -160,7 +160,14 @@ Section Math.
           let '(st, rest) := parse_newline_option T st rest false in
           let start := match rest with x :: _ => pos x | [] => start end in
           display_sections k st rest start ename true next_repl out
-        else Ok (st, out, rest, start)
+        else
+          (* closed: the section ended with a delimiter, not with the end of
+             the text or of the paragraph *)
+          Ok (st, out, rest, start,
+              match e with
+              | Some x => match tk x with KPar => false | _ => true end
+              | None => false
+              end)
     end.
 
   Definition expand_display_math (fuel : nat) (st : pstate) (buf : list tok)
@@ -169,7 +176,7 @@ Section Math.
     let start := pos t in
     do d <- display_sections fuel st buf start ename true true
               [ActionT start; SpaceF start [c_space; c_space]];
-    let '(st, out, rest, _) := d in
+    let '(st, out, rest, _, closed) := d in
     let tx := strip (t_is_space T) (get_text_direct out) in
     let lastc := match rev tx with c :: _ => Some c | [] => None end in
     let is_p := match lastc with
@@ -181,7 +188,7 @@ Section Math.
                   else Ok (st, ([ActionT lp], rest))
       | None => Ok (st, ([ActionT lp], rest))
       end
-    else if displayed_simple st then
+    else if displayed_simple st && closed then
       match get_repls st true with
       | [] => Exc IndexError
       | ph :: _ =>
